@@ -5,7 +5,7 @@ import (
 	"unsafe"
 )
 
-// retainedBytes sums len() of every byte slice reachable from v (normally a pointer to a decoder
+// retainedBytes sums len() (capacity for empty slices) of every byte slice reachable from v (normally a pointer to a decoder
 // struct): through pointers, struct fields (exported or not), slices, arrays, maps and interfaces.
 // Deterministic, no GC involved. Byte slices are de-duplicated by the address of their first
 // element (two slices starting at the same address count once, with the larger length); pointers
@@ -46,12 +46,20 @@ func (w *walker) walk(v reflect.Value, depth int) {
 			w.walk(v.Field(i), depth+1)
 		}
 	case reflect.Slice:
-		if v.IsNil() || v.Len() == 0 {
+		if v.IsNil() {
 			return
 		}
 		if v.Type().Elem().Kind() == reflect.Uint8 {
 			p := v.UnsafePointer()
 			n := v.Len()
+			if n == 0 {
+				// an empty slice still pins the rest of its backing array (e.g. payload[:0] kept in
+				// a fragment list): what it keeps alive is its capacity
+				n = v.Cap()
+			}
+			if n == 0 {
+				return
+			}
 			if old, seen := w.bytes[p]; seen {
 				if n > old {
 					w.total += int64(n - old)
@@ -63,7 +71,7 @@ func (w *walker) walk(v reflect.Value, depth int) {
 			w.total += int64(n)
 			return
 		}
-		if !hasIndirection(v.Type().Elem()) {
+		if v.Len() == 0 || !hasIndirection(v.Type().Elem()) {
 			return
 		}
 		for i := 0; i < v.Len(); i++ {
